@@ -140,8 +140,8 @@ def dumpAcct (w : World) (slots : List Nat) (a : Nat) : String :=
   s!"{addrHex a}:{if w.isLive a then 1 else 0}:{w.nonceOf a}:{w.balOf a}:{showData (w.codeOf a)}:{if w.hasSuicided a then 1 else 0}:{",".intercalate st}"
 
 def dump (w : World) (addrs slots : List Nat) : String :=
-  let logs := w.logs.reverse.map fun l => "/".intercalate (addrHex l.addr :: l.topics.map toString)
-  " ".intercalate (addrs.map (dumpAcct w slots)) ++ s!" logs={if logs.isEmpty then "-" else ",".intercalate logs} refund={w.refund}"
+  let logs := w.logs.reverse.map fun l => "/".intercalate (addrHex l.addr :: l.topics.map toString) ++ s!"@{l.index}"
+  " ".intercalate (addrs.map (dumpAcct w slots)) ++ s!" logs={if logs.isEmpty then "-" else ",".intercalate logs}#{w.logSize} refund={w.refund}"
 
 def step (w : World) (line : String) : World × String :=
   match fields line with
